@@ -162,14 +162,34 @@ func runStartSpin(t *tape.Tape, cfg sim.Config) (res sim.Result) {
 	if err != nil {
 		panic(err)
 	}
+	// one or two instantiations of the module are inside their start function at the same time (the
+	// instance-per-request pattern: the same name, usually none)
+	ninst := 1 + t.Choose(2)
+	name := tape.Pick(t, []string{"", "s"})
+	all := make(chan error, ninst)
+	for i := 0; i < ninst; i++ {
+		go func() {
+			_, err := rt.InstantiateModule(ctx, cm, wazero.NewModuleConfig().WithName(name))
+			all <- err
+		}()
+	}
 	done := make(chan error, 1)
 	go func() {
-		_, err := rt.InstantiateModule(ctx, cm, wazero.NewModuleConfig().WithName(tape.Pick(t, []string{"", "s"})))
-		done <- err
+		var first error
+		for i := 0; i < ninst; i++ {
+			if err := <-all; err == nil {
+				first = nil
+				done <- nil
+				return
+			} else if first == nil {
+				first = err
+			}
+		}
+		done <- first
 	}()
-	res.Sample = map[string]any{"cause": cause, "k": k}
-	res.Shape = sim.ShapeOf(fmt.Sprint(cause, k))
-	res.Logf("spin in the start-section function, cause %d at callback %d", cause, k)
+	res.Sample = map[string]any{"cause": cause, "k": k, "instantiations": ninst}
+	res.Shape = sim.ShapeOf(fmt.Sprint(cause, k, ninst))
+	res.Logf("%d instantiation(s) spinning in the start-section function, cause %d at callback %d", ninst, cause, k)
 	res.Nontrivial = true
 	res.Stat("probe.guest_spinning_in_its_start_function", 1)
 	<-fired
@@ -179,11 +199,7 @@ func runStartSpin(t *tape.Tape, cfg sim.Config) (res sim.Result) {
 			res.Fail("wrong-error", "start function spinning, cause %d: InstantiateModule returned no error", cause)
 		}
 	case <-time.After(2 * time.Second):
-		if cause == 2 {
-			res.Known = append(res.Known, "start-function-not-stopped-by-runtime-close")
-		} else {
-			res.Fail("late-stop", "start function spinning, cause %d (0 cancel, 1 deadline): InstantiateModule has not returned 2 s after the context was done", cause)
-		}
+		res.Fail("late-stop", "%d instantiation(s) named %q spinning in the start-section function, cause %d (0 cancel, 1 deadline, 2 Runtime.Close from the host callback): not every InstantiateModule has returned 2 s after the cause", ninst, name, cause)
 		abandon.Store(true)
 		select {
 		case <-done:
